@@ -156,3 +156,88 @@ Qed.
 Theorem unbounded_is_instance N order : length order <= N ->
   forall conns i last, 0 < i -> valid_conns order i last conns -> valid_conns_b N order i last conns.
 Proof. intros HN conns i last Hi. apply valid_b_of_valid; [exact HN|exact Hi|]. now apply body_b_large. Qed.
+
+(* ---- ANY replayer that holds a suffix of the put history ---------------------------------------
+   What C08 and C09 prove of the two replayers is an instance of one shape: at every moment the replayer
+   holds the last [k] accepted puts for some k - N for a FiniteReplayer, the number of entries not yet
+   collected for a ValidReplayer ([collect] removes a prefix, [collect_is_lastn]).  [keep cn] is that k when
+   connection [cn] is registered: it may differ from connection to connection (expiry, collection timing).
+   The proviso becomes [cn_p cn - i < keep cn]: the event the client holds is still stored. *)
+Definition body_msgs_k (keep : conn -> nat) (order : list msg) (last : bytes) (cn : conn) : list msg :=
+  resume (lastn (keep cn) (firstn (cn_p cn) order)) last ++ skipn (cn_p cn) (firstn (cn_j cn) order).
+
+Fixpoint run_conns_k (keep : conn -> nat) (order : list msg) (last : bytes) (conns : list conn) : list event :=
+  match conns with
+  | [] => []
+  | cn :: r =>
+      let evs := events_of (client_conn last (body_msgs_k keep order last cn) (cn_cut cn)) in
+      evs ++ run_conns_k keep order (last_of evs last) r
+  end.
+
+Fixpoint valid_conns_k (keep : conn -> nat) (order : list msg) (i : nat) (last : bytes) (conns : list conn) : Prop :=
+  match conns with
+  | [] => True
+  | cn :: r =>
+      let evs := events_of (client_conn last (body_msgs_k keep order last cn) (cn_cut cn)) in
+      i <= cn_p cn /\ cn_p cn <= cn_j cn /\ cn_j cn <= length order /\ cn_p cn - i < keep cn /\
+      valid_conns_k keep order (i + length evs) (last_of evs last) r
+  end.
+
+Lemma body_k_is_b keep order last cn : body_msgs_k keep order last cn = body_msgs_b (keep cn) order last cn.
+Proof. reflexivity. Qed.
+
+Lemma suffix_gen keep order A m B : pub_ok order -> order = A ++ m :: B ->
+  forall conns n, n <= length B ->
+  valid_conns_k keep order (S (length A) + n) (mid (nth n (m :: B) m)) conns ->
+  run_conns_k keep order (mid (nth n (m :: B) m)) conns = run_conns order (mid (nth n (m :: B) m)) conns /\
+  valid_conns order (S (length A) + n) (mid (nth n (m :: B) m)) conns.
+Proof.
+  intros Hok Ho. induction conns as [|cn conns IH]; intros n Hn Hv.
+  - split; [reflexivity|exact I].
+  - cbn [run_conns_k run_conns valid_conns_k valid_conns] in *. destruct Hv as (Hp & Hj & Hjl & Hfit & Hv).
+    set (last := mid (nth n (m :: B) m)) in *.
+    assert (Hbody : body_msgs_k keep order last cn = body_msgs order last cn).
+    { rewrite body_k_is_b.
+      set (A' := A ++ firstn n (m :: B)). set (B' := skipn n B).
+      assert (Ho' : order = A' ++ nth n (m :: B) m :: B').
+      { rewrite Ho. unfold A', B'. rewrite <- app_assoc. f_equal.
+        rewrite (split_at_nth (m :: B) n m) at 1 by (cbn [length]; lia). reflexivity. }
+      assert (HlenA : length A' = length A + n).
+      { unfold A'. rewrite app_length, firstn_length. cbn [length]. lia. }
+      destruct Hok as [_ Hnd]. unfold last. rewrite Ho'. apply body_b_eq.
+      - rewrite <- Ho'. exact Hnd.
+      - lia.
+      - rewrite <- Ho'. lia.
+      - lia. }
+    rewrite Hbody in *.
+    destruct (conn_step order A m B n cn Hok Ho Hn Hp Hj Hjl) as (k & Hev & Hk & Hkj & Hfull & Hlast).
+    cbn zeta in *. fold last in Hev, Hlast. rewrite Hev in *. rewrite Hlast in *.
+    rewrite map_length, firstn_length, skipn_length, Nat.min_l in Hv by lia.
+    rewrite map_length, firstn_length, skipn_length, Nat.min_l by lia.
+    replace (S (length A) + n + k) with (S (length A) + (n + k)) in * by lia.
+    destruct (IH (n + k) Hk Hv) as (Hrun & Hval).
+    split; [now rewrite Hrun|]. repeat split; assumption.
+Qed.
+
+Theorem end_to_end_suffix keep order : pub_ok order ->
+  forall conns A m B, order = A ++ m :: B ->
+  valid_conns_k keep order (S (length A)) (mid m) conns ->
+  exists n, run_conns_k keep order (mid m) conns = map event_of (firstn n B) /\ n <= length B /\
+            (forall cl, final_conn conns = Some cl -> cn_cut cl = None -> S (length A) + n = cn_j cl).
+Proof.
+  intros Hok conns A m B Ho Hv.
+  destruct (suffix_gen keep order A m B Hok Ho conns 0 ltac:(lia)) as (Hrun & Hval).
+  { rewrite Nat.add_0_r. exact Hv. }
+  cbn [nth] in *. rewrite Nat.add_0_r in Hval. rewrite Hrun. exact (end_to_end order Hok conns A m B Ho Hval).
+Qed.
+
+(* what a ValidReplayer holds after a collection is a suffix of what it held: [collect] only removes a prefix *)
+Lemma collect_is_lastn (l : list entry) now : collect l now = lastn (length (collect l now)) l.
+Proof.
+  induction l as [|e r IH]; [reflexivity|]. cbn [collect]. destruct (now <? e_exp e)%Z.
+  - unfold lastn. now rewrite Nat.sub_diag.
+  - rewrite IH at 1. unfold lastn. cbn [length].
+    assert (Hle : length (collect r now) <= length r).
+    { clear IH. induction r as [|x r IHr]; [cbn; lia|]. cbn [collect]. destruct (now <? e_exp x)%Z; cbn [length]; lia. }
+    replace (S (length r) - length (collect r now)) with (S (length r - length (collect r now))) by lia. reflexivity.
+Qed.
